@@ -28,7 +28,7 @@ SHARD_TIMEOUT = {"quick": 300, "thorough": 3000}
 
 def plan(tier, seed):
     n = 12 if tier == "quick" else 48
-    return ([{"kind": "random", "n": 500 if tier == "quick" else 3200} for _ in range(n)] + [{"kind": "templates"}, {"kind": "places"}]
+    return ([{"kind": "random", "n": 500 if tier == "quick" else 3200} for _ in range(n)] + [{"kind": "templates"}, {"kind": "places"}, {"kind": "escaping"}]
             + [{"kind": "modscope", "n": 60 if tier == "quick" else 400} for _ in range(2 if tier == "quick" else 8)])
 
 
@@ -220,6 +220,11 @@ def run_places(spec, ctx):
 def run_shard(spec, ctx):
     if spec["kind"] == "places":
         return run_places(spec, ctx)
+    if spec["kind"] == "escaping":
+        # a function sees the scope it was created in for as long as it lives - also after the interpret call that
+        # created it (in an environment supplied by the host) has returned
+        from cklmon import sessions
+        return sessions.run_escaping(ctx, "C03")
     if spec["kind"] == "modscope":
         return run_modscope(spec, ctx)
     import ckl.functions
